@@ -2,7 +2,9 @@
 
 spec:  SimpleDB.tla with 2 clients, two-step Get, database lock, unbuffered hand-off, flusher, compactor (MC_SimpleDB_conc):
        GetLinearizable, NoLimboWhenUnlocked, ReadsLikeMap over all interleavings at lock / channel grain.
-bind:  real histories of 4-8 goroutines over 8 keys with unique values, tiny memstores, background compaction every 0.2-1 ms,
+bind:  deterministic gate-driven interleavings (install between the two reads of a Get; reflect attempted while a Get holds the read lock;
+       second rotation / a Get attempted while the first flush is running) with the disabledness test, and
+       real histories of 4-8 goroutines over 8 keys with unique values, tiny memstores, background compaction every 0.2-1 ms,
        seeded delays at the scheduling gates, several GOMAXPROCS values;
        (a) white-box: hook events judged by SimpleDBTrace.tla (every rotation / hand-off / install / reflect must be the enabled step,
            every Get reply a value of the reference read while the call was pending),
@@ -71,6 +73,26 @@ def run(tier):
         return trace, nok, bad, r, acc, hw, total, index
 
     res = common.parallel(do, batches)
+    # deterministic interleavings through the scheduling gates: the distinguishing schedules of the concurrent model, incl. the
+    # disabledness test (a step the specification does not enable is attempted and must stay blocked)
+    wcases = []
+    for w in ["install-between-reads", "reflect-while-get", "second-rotation-waits"]:
+        wcases.append([dbgen.open_step(1, 1 << 30, 1000, mem=1 << 30, bg=False), {"op": "window", "v": w}, {"op": "barrier"}, {"op": "getall", "k": 3}, {"op": "close"}])
+    for gmp in (["1", "4", "16"] if not thorough else ["1", "2", "4", "16"] * 3):
+        wtrace = dbrun.run_db_batch(binary, "C05-windows-%s" % gmp, wcases, seed=SEED, env={"GOMAXPROCS": gmp}, timeout=120)
+        wnok, wbad, wr = dbrun.judge_db(wtrace, o, "gate-driven interleavings GOMAXPROCS=" + gmp)
+        wevs = common.read_ndjson(wtrace)
+        nblocked = sum(1 for e in wevs if e["t"] == "blocked")
+        landed = any(e["t"] == "note" and "install landed between the two reads: true" in e.get("name", "") for e in wevs)
+        for b in wbad[:5]:
+            o.report(signature(b), "gate-driven interleaving (GOMAXPROCS=%s) line %s clause %s\n  event: %s\n  context:\n    %s" % (
+                gmp, b["line"], b["clause"], b.get("ev", "")[:300], "\n    ".join(dbrun.context(wtrace, b["line"])[-10:])),
+                {"steps": wcases[b.get("case", 0)] if 0 <= b.get("case", 0) < 3 else None, "gates": False, "clause": b["clause"], "env": {"GOMAXPROCS": gmp}})
+        o.traces += 3
+        log("[C05] gate-driven interleavings GOMAXPROCS=%-2s: %s conforming steps, %d rejected, %d disabledness assertions, install-between-reads reached: %s" % (
+            gmp, wnok, len(wbad), nblocked, landed))
+        if nblocked < 3 or not landed:
+            o.problem("gate-driven interleavings were not reached (blocked assertions %d, install between reads %s)" % (nblocked, landed))
     kinds = {}
     ncalls = 0
     for (name, case, env), (trace, nok, bad, r, acc, hw, total, index) in zip(batches, res):
